@@ -295,7 +295,12 @@ def _run_reuse(case):
     evals = 0
     seen = set()
     sample = None
-    for op, tok, bad in _corruptions(its):
+    # rejected texts: every one-token corruption; the text preceded by a command whose list mixes plain items and key:value pairs (an error
+    # the parser records and reports at the end); and BOTH defects in one text (recorded error first, then the hard syntax error)
+    mix = "Zq = Cmd(P = [1, K: v])\n"
+    bads = [bad for _, _, bad in _corruptions(its)]
+    bads = bads + [mix + text] + [mix + bad for bad in bads] + [bad.rstrip("\n") + "\n" + mix for bad in bads[:6]]
+    for bad in bads:
         parser = Parser()
         try:
             parser.parse(bad)
